@@ -211,7 +211,8 @@ const (
 	DevE                   // FORWARD: the source pod's egress verdict is final, destination ingress not consulted
 	DevF                   // port entries without a number are dropped (none left: all protocols)
 	DevG                   // ipBlock peers of one rule share one hash:net set: an except shadows other peers' cidrs
-	DevAll = DevA | DevB | DevC | DevD | DevE | DevF | DevG
+	DevM                   // a rule with > 15 ports of one protocol: iptables refuses the batch, NOTHING is enforced
+	DevAll = DevA | DevB | DevC | DevD | DevE | DevF | DevG | DevM
 )
 
 var DevNames = map[Dev]string{
@@ -222,9 +223,40 @@ var DevNames = map[Dev]string{
 	DevE: "same-node-egress-accept-skips-ingress",
 	DevF: "portless-port-entry",
 	DevG: "ipblock-except-shadows-other-peer",
+	DevM: "multiport-more-than-15-ports",
 }
 
-var DevOrder = []Dev{DevA, DevB, DevC, DevD, DevE, DevF, DevG}
+var DevOrder = []Dev{DevA, DevB, DevC, DevD, DevE, DevF, DevG, DevM}
+
+// OverLimit: does some rule galaxy emits for these policies carry more than 15 ports of one protocol?  (A rule is
+// emitted for every rule of a compiled direction that has at least one peer.)
+func OverLimit(ps []NetPol) bool {
+	over := func(rs []Rule) bool {
+		for _, r := range rs {
+			if len(r.Peers) == 0 {
+				continue
+			}
+			tcp, udp := 0, 0
+			for _, p := range r.Ports {
+				if p.HasPort && p.Proto == "tcp" {
+					tcp++
+				} else if p.HasPort {
+					udp++
+				}
+			}
+			if tcp > 15 || udp > 15 {
+				return true
+			}
+		}
+		return false
+	}
+	for i := range ps {
+		if (ps[i].AffectsIngress() && over(ps[i].Ingress)) || (ps[i].AffectsEgress() && over(ps[i].Egress)) {
+			return true
+		}
+	}
+	return false
+}
 
 // devPeersMatch: does address a match the peer list of rule r (policy namespace polNS) under deviations dev?
 func devPeersMatch(c *Cluster, polNS string, r *Rule, a uint32, dev Dev) bool {
@@ -347,6 +379,9 @@ func isolated(ps []NetPol, pod *Pod, ingress bool) bool {
 
 // Predicted: expected verdict of the installed rules on node c.Node under the enabled deviations.
 func Predicted(c *Cluster, ps []NetPol, f *Flow, dev Dev) bool {
+	if dev&DevM != 0 && OverLimit(ps) {
+		return true // the policy batch is refused, every pod batch after it too: no chain, no hook
+	}
 	s, d := c.podByIP(f.Src), c.podByIP(f.Dst)
 	egressHooked := f.Hook != "OUTPUT" && s != nil && s.Node == c.Node && isolated(ps, s, false)
 	ingressHooked := f.Hook != "INPUT" && d != nil && d.Node == c.Node && isolated(ps, d, true)
